@@ -64,6 +64,9 @@ type vfC09Cfg struct {
 	MaxApp   int `json:"max_app"`
 	MaxSnaps int `json:"max_snaps"`
 	Leaves   int `json:"leaves"`
+	// Preset: before exploration starts instance n1 claims every shard and its announcements are delivered
+	// (exploration starts from a non-initial state: the claims that follow are take-overs).
+	Preset bool `json:"preset,omitempty"`
 }
 
 func vfNode(i int) string { return fmt.Sprintf("n%d", i+1) }
@@ -87,6 +90,17 @@ func vfNewCluster9(cfg vfC09Cfg) *vfCluster9 {
 		for j := 0; j < cfg.N; j++ {
 			if i != j {
 				c.sms[j].delegate.MergeRemoteState(c.sms[i].delegate.LocalState(true), true)
+			}
+		}
+	}
+	if cfg.Preset {
+		for x := 1; x <= cfg.Shards; x++ {
+			c.sms[0].RegisterShard(vfShard9(x))
+			c.announce(0, "register", x)
+			for len(c.flight) > 0 {
+				fl := c.flight[0]
+				c.flight = c.flight[1:]
+				c.deliverTo(fl)
 			}
 		}
 	}
@@ -582,9 +596,11 @@ func TestVerifC09(t *testing.T) {
 		}
 		return
 	}
-	cfgs := []vfC09Cfg{{N: 2, Shards: 1, MaxApp: 3, MaxSnaps: 1, Leaves: 1}, {N: 2, Shards: 2, MaxApp: 2, MaxSnaps: 0, Leaves: 0}, {N: 3, Shards: 1, MaxApp: 2, MaxSnaps: 0, Leaves: 1}}
+	cfgs := []vfC09Cfg{{N: 2, Shards: 1, MaxApp: 3, MaxSnaps: 1, Leaves: 1}, {N: 2, Shards: 2, MaxApp: 2, MaxSnaps: 0, Leaves: 0}, {N: 3, Shards: 1, MaxApp: 2, MaxSnaps: 0, Leaves: 1},
+		{N: 2, Shards: 2, MaxApp: 2, MaxSnaps: 1, Leaves: 0, Preset: true}}
 	if vrt.Thorough() {
-		cfgs = []vfC09Cfg{{N: 2, Shards: 2, MaxApp: 3, MaxSnaps: 2, Leaves: 1}, {N: 3, Shards: 1, MaxApp: 3, MaxSnaps: 2, Leaves: 1}, {N: 3, Shards: 2, MaxApp: 3, MaxSnaps: 1, Leaves: 1}}
+		cfgs = []vfC09Cfg{{N: 2, Shards: 2, MaxApp: 3, MaxSnaps: 2, Leaves: 1}, {N: 3, Shards: 1, MaxApp: 3, MaxSnaps: 2, Leaves: 1}, {N: 3, Shards: 2, MaxApp: 3, MaxSnaps: 1, Leaves: 1},
+			{N: 2, Shards: 2, MaxApp: 3, MaxSnaps: 1, Leaves: 1, Preset: true}, {N: 3, Shards: 2, MaxApp: 2, MaxSnaps: 0, Leaves: 0, Preset: true}}
 	}
 	deadline := vrt.Deadline()
 	var states, transitions int64
